@@ -10,9 +10,11 @@
 package main
 
 import (
+	"bytes"
 	"fmt"
 	"go/ast"
 	"go/parser"
+	"go/printer"
 	"go/token"
 	"os"
 	"path/filepath"
@@ -339,6 +341,589 @@ func extractJpFacts(repo, out string) ([]string, error) {
 	}
 	if ch {
 		return []string{"JpFacts"}, nil
+	}
+	return nil, nil
+}
+
+// ---- the parenthesisation and precedence RULES (C14) ------------------------------------------------------------------
+//
+// Gen/JpParens.lean: read from the syntax trees of jp/script.go and jp/equation.go, not from constants written here:
+//   - Script.appendValue: the condition (and both arms) under which a *precBuf operand is parenthesised
+//   - Script.appendOp: the first statement, the switch tag, every clause (labels, resolved op codes, statements), and
+//     the condition under which the right operand of the infix default keeps its parentheses
+//   - Script.Append / Script.String / Filter.String (jp/filter.go): the statements
+//   - Equation.Append: the clause list that switches `parens` off, every clause of the main switch, the `parens`
+//     argument of the left and right operand in the infix default; Equation.infix; Equation.String
+//   - precedentCorrect: every if condition in source order, the precedence comparisons, the call-form clause, the rotation
+//   - reduceGroups: every statement, the precedence comparison; MustParseEquation: the statements
+// Statement text is go/printer output (comments dropped), whitespace-normalised. Fails loudly when a function, a
+// switch, a clause or an expected statement shape is not found.
+
+func init() {
+	registerExtra(extractJpParens)
+}
+
+func jpxText(fset *token.FileSet, n any) string {
+	var buf bytes.Buffer
+	if err := printer.Fprint(&buf, fset, n); err != nil {
+		return "<unprintable: " + err.Error() + ">"
+	}
+	return strings.Join(strings.Fields(buf.String()), " ")
+}
+
+// jpxParams renders a parameter list as `a, b T, c U`.
+func jpxParams(fset *token.FileSet, fl *ast.FieldList) string {
+	if fl == nil {
+		return ""
+	}
+	var parts []string
+	for _, f := range fl.List {
+		var names []string
+		for _, n := range f.Names {
+			names = append(names, n.Name)
+		}
+		parts = append(parts, strings.TrimSpace(strings.Join(names, ", ")+" "+jpxText(fset, f.Type)))
+	}
+	return strings.Join(parts, ", ")
+}
+
+func jpxStr(s string) string {
+	var b strings.Builder
+	b.WriteByte('"')
+	for _, r := range s {
+		switch {
+		case r == '\\':
+			b.WriteString("\\\\")
+		case r == '"':
+			b.WriteString("\\\"")
+		case r >= 0x20 && r < 0x7f:
+			b.WriteRune(r)
+		default:
+			fmt.Fprintf(&b, "\\u{%x}", r)
+		}
+	}
+	b.WriteByte('"')
+	return b.String()
+}
+
+func jpxStrList(xs []string) string {
+	q := make([]string, len(xs))
+	for i, x := range xs {
+		q[i] = jpxStr(x)
+	}
+	return "[" + strings.Join(q, ", ") + "]"
+}
+
+type jpxCmp struct{ lhs, op, rhs string }
+
+var jpxCmpOps = map[string]string{"<": ".lt", "<=": ".le", "==": ".eq", "!=": ".ne", ">": ".gt", ">=": ".ge"}
+
+func (c jpxCmp) lean() string {
+	return fmt.Sprintf("⟨%s, %s, %s⟩", jpxStr(c.lhs), jpxCmpOps[c.op], jpxStr(c.rhs))
+}
+
+func jpxCmpList(cs []jpxCmp) string {
+	q := make([]string, len(cs))
+	for i, c := range cs {
+		q[i] = c.lean()
+	}
+	return "[" + strings.Join(q, ", ") + "]"
+}
+
+// jpxPrecCmps lists, in source order, every comparison below n one of whose operands is a precedence
+// (an identifier `prec` or a selector `….prec`).
+func jpxPrecCmps(fset *token.FileSet, n ast.Node) []jpxCmp {
+	isPrec := func(x ast.Expr) bool {
+		switch t := x.(type) {
+		case *ast.Ident:
+			return t.Name == "prec"
+		case *ast.SelectorExpr:
+			return t.Sel.Name == "prec"
+		}
+		return false
+	}
+	var out []jpxCmp
+	ast.Inspect(n, func(m ast.Node) bool {
+		be, ok := m.(*ast.BinaryExpr)
+		if !ok {
+			return true
+		}
+		switch be.Op {
+		case token.LSS, token.LEQ, token.GTR, token.GEQ, token.EQL, token.NEQ:
+			if isPrec(be.X) || isPrec(be.Y) {
+				out = append(out, jpxCmp{jpxText(fset, be.X), be.Op.String(), jpxText(fset, be.Y)})
+			}
+		}
+		return true
+	})
+	return out
+}
+
+type jpxClause struct {
+	labels []string
+	codes  []string // Lean terms of type UInt8
+	body   []string
+	node   *ast.CaseClause
+}
+
+type jpxFile struct {
+	rel   string
+	fset  *token.FileSet
+	funcs map[string]*ast.FuncDecl // "Recv.Name" or "Name"
+}
+
+func jpxParse(repo, rel string) (*jpxFile, *ast.File, error) {
+	path := filepath.Join(repo, filepath.FromSlash(rel))
+	src, err := os.ReadFile(path)
+	if err != nil {
+		return nil, nil, err
+	}
+	fset := token.NewFileSet()
+	f, err := parser.ParseFile(fset, path, src, 0)
+	if err != nil {
+		return nil, nil, err
+	}
+	jf := &jpxFile{rel: rel, fset: fset, funcs: map[string]*ast.FuncDecl{}}
+	for _, d := range f.Decls {
+		fd, ok := d.(*ast.FuncDecl)
+		if !ok || fd.Body == nil {
+			continue
+		}
+		name := fd.Name.Name
+		if fd.Recv != nil && len(fd.Recv.List) == 1 {
+			t := fd.Recv.List[0].Type
+			if st, ok := t.(*ast.StarExpr); ok {
+				t = st.X
+			}
+			if id, ok := t.(*ast.Ident); ok {
+				name = id.Name + "." + name
+			}
+		}
+		jf.funcs[name] = fd
+	}
+	return jf, f, nil
+}
+
+func (jf *jpxFile) fn(name string) (*ast.FuncDecl, error) {
+	fd := jf.funcs[name]
+	if fd == nil {
+		return nil, fmt.Errorf("%s: function %s not found", jf.rel, name)
+	}
+	return fd, nil
+}
+
+func (jf *jpxFile) stmts(list []ast.Stmt) []string {
+	out := make([]string, len(list))
+	for i, s := range list {
+		out[i] = jpxText(jf.fset, s)
+	}
+	return out
+}
+
+// switches returns the expression switches directly in the statement list (not nested in other statements).
+func jpxSwitches(list []ast.Stmt) []*ast.SwitchStmt {
+	var out []*ast.SwitchStmt
+	for _, s := range list {
+		if sw, ok := s.(*ast.SwitchStmt); ok {
+			out = append(out, sw)
+		}
+	}
+	return out
+}
+
+// clauses reads the clauses of a switch over op codes; every label must be `<op>.code`, `userOpCode` or a char literal.
+func (jf *jpxFile) clauses(where string, sw *ast.SwitchStmt, opVars map[string]bool) ([]jpxClause, error) {
+	var out []jpxClause
+	for _, s := range sw.Body.List {
+		cc, ok := s.(*ast.CaseClause)
+		if !ok {
+			return nil, fmt.Errorf("%s: %s: switch body holds something that is not a clause", jf.rel, where)
+		}
+		c := jpxClause{body: jf.stmts(cc.Body), node: cc}
+		for _, l := range cc.List {
+			c.labels = append(c.labels, jpxText(jf.fset, l))
+			switch t := l.(type) {
+			case *ast.SelectorExpr:
+				id, ok := t.X.(*ast.Ident)
+				if !ok || t.Sel.Name != "code" || !opVars[id.Name] {
+					return nil, fmt.Errorf("%s: %s: case label %s is not <op>.code of a known op", jf.rel, where, jpxText(jf.fset, l))
+				}
+				c.codes = append(c.codes, "JpOps.op_"+id.Name+".code")
+			case *ast.Ident:
+				if t.Name != "userOpCode" {
+					return nil, fmt.Errorf("%s: %s: case label %s is not understood", jf.rel, where, t.Name)
+				}
+				c.codes = append(c.codes, "Jp.userOpCode")
+			case *ast.BasicLit:
+				n, err := litInt(t)
+				if err != nil || n < 0 || n > 255 {
+					return nil, fmt.Errorf("%s: %s: case label %s is not a byte", jf.rel, where, t.Value)
+				}
+				c.codes = append(c.codes, strconv.Itoa(n))
+			default:
+				return nil, fmt.Errorf("%s: %s: case label %s is not understood", jf.rel, where, jpxText(jf.fset, l))
+			}
+		}
+		out = append(out, c)
+	}
+	if len(out) == 0 {
+		return nil, fmt.Errorf("%s: %s: switch without clauses", jf.rel, where)
+	}
+	return out, nil
+}
+
+func jpxClauseList(cs []jpxClause) string {
+	var b strings.Builder
+	b.WriteString("[")
+	for i, c := range cs {
+		if i > 0 {
+			b.WriteString(",")
+		}
+		fmt.Fprintf(&b, "\n  { labels := %s,\n    codes := [%s],\n    body := %s }", jpxStrList(c.labels), strings.Join(c.codes, ", "), jpxStrList(c.body))
+	}
+	b.WriteString("]")
+	return b.String()
+}
+
+func jpxDefault(where string, cs []jpxClause) (*jpxClause, error) {
+	for i := range cs {
+		if len(cs[i].labels) == 0 {
+			return &cs[i], nil
+		}
+	}
+	return nil, fmt.Errorf("%s: no default clause", where)
+}
+
+// jpxCallsTo lists, in source order, the calls below n whose function text ends in suffix.
+func jpxCallsTo(fset *token.FileSet, n ast.Node, suffix string) []*ast.CallExpr {
+	var out []*ast.CallExpr
+	ast.Inspect(n, func(m ast.Node) bool {
+		if ce, ok := m.(*ast.CallExpr); ok && strings.HasSuffix(jpxText(fset, ce.Fun), suffix) {
+			out = append(out, ce)
+		}
+		return true
+	})
+	return out
+}
+
+func jpxIfConds(fset *token.FileSet, n ast.Node) []string {
+	var out []string
+	ast.Inspect(n, func(m ast.Node) bool {
+		if is, ok := m.(*ast.IfStmt); ok {
+			c := jpxText(fset, is.Cond)
+			if is.Init != nil {
+				c = jpxText(fset, is.Init) + "; " + c
+			}
+			out = append(out, c)
+		}
+		return true
+	})
+	return out
+}
+
+func extractJpParens(repo, out string) ([]string, error) {
+	sf, sfile, err := jpxParse(repo, "jp/script.go")
+	if err != nil {
+		return nil, err
+	}
+	ef, _, err := jpxParse(repo, "jp/equation.go")
+	if err != nil {
+		return nil, err
+	}
+	ff, _, err := jpxParse(repo, "jp/filter.go")
+	if err != nil {
+		return nil, err
+	}
+	// the package-level `x = &op{…}` variables
+	opVars := map[string]bool{}
+	for _, d := range sfile.Decls {
+		gd, ok := d.(*ast.GenDecl)
+		if !ok || gd.Tok != token.VAR {
+			continue
+		}
+		for _, sp := range gd.Specs {
+			vs := sp.(*ast.ValueSpec)
+			for i, id := range vs.Names {
+				if i >= len(vs.Values) {
+					continue
+				}
+				if ue, ok := vs.Values[i].(*ast.UnaryExpr); ok && ue.Op == token.AND {
+					if cl, ok := ue.X.(*ast.CompositeLit); ok {
+						if tid, ok := cl.Type.(*ast.Ident); ok && tid.Name == "op" {
+							opVars[id.Name] = true
+						}
+					}
+				}
+			}
+		}
+	}
+	if len(opVars) == 0 {
+		return nil, fmt.Errorf("jp/script.go: no op variables found")
+	}
+
+	var b strings.Builder
+	b.WriteString("import OjgVerif.Gen.Jp\nimport OjgVerif.Gen.JpOps\n")
+	b.WriteString("/- GENERATED by /verif/tools/extract (jptext.go) from jp/script.go, jp/equation.go, jp/filter.go — do not edit; rewritten on every run. -/\n")
+	b.WriteString("namespace OjgVerif.Gen.JpParens\nopen OjgVerif.Gen\n\n")
+	b.WriteString("/-- the comparison tokens of Go -/\ninductive CmpOp where\n  | lt | le | eq | ne | gt | ge\nderiving DecidableEq, Repr, Inhabited\n\n/-- a comparison read from a condition: left operand (source text), operator token, right operand (source text) -/\nstructure Cmp where\n  lhs : String\n  op : CmpOp\n  rhs : String\nderiving DecidableEq, Repr, Inhabited\n\n")
+	b.WriteString("/-- one clause of a `switch` over op codes: the labels as written (none for `default`), the codes they denote, and the\nstatements of the body (go/printer text, whitespace-normalised, comments dropped) -/\nstructure Clause where\n  labels : List String\n  codes : List UInt8\n  body : List String\nderiving DecidableEq, Repr, Inhabited\n\n")
+	def := func(doc, name, typ, val string) {
+		fmt.Fprintf(&b, "/-- %s -/\ndef %s : %s := %s\n\n", doc, name, typ, val)
+	}
+
+	// ---- Script.appendValue: the *precBuf clause of the type switch
+	{
+		fd, err := sf.fn("Script.appendValue")
+		if err != nil {
+			return nil, err
+		}
+		if fd.Type.Params == nil || jpxParams(sf.fset, fd.Type.Params) != "buf []byte, v any, prec byte" {
+			return nil, fmt.Errorf("jp/script.go: Script.appendValue: parameters are not (buf []byte, v any, prec byte)")
+		}
+		var cl *ast.CaseClause
+		ast.Inspect(fd.Body, func(n ast.Node) bool {
+			ts, ok := n.(*ast.TypeSwitchStmt)
+			if !ok {
+				return true
+			}
+			for _, s := range ts.Body.List {
+				if cc, ok := s.(*ast.CaseClause); ok && len(cc.List) == 1 && jpxText(sf.fset, cc.List[0]) == "*precBuf" {
+					cl = cc
+				}
+			}
+			return true
+		})
+		if cl == nil {
+			return nil, fmt.Errorf("jp/script.go: Script.appendValue: no `case *precBuf:` clause")
+		}
+		if len(cl.Body) != 1 {
+			return nil, fmt.Errorf("jp/script.go: Script.appendValue: the *precBuf clause is not a single statement")
+		}
+		is, ok := cl.Body[0].(*ast.IfStmt)
+		if !ok || is.Init != nil {
+			return nil, fmt.Errorf("jp/script.go: Script.appendValue: the *precBuf clause is not a plain if statement")
+		}
+		cm := jpxPrecCmps(sf.fset, is.Cond)
+		if len(cm) != 1 || jpxText(sf.fset, is.Cond) != cm[0].lhs+" "+cm[0].op+" "+cm[0].rhs {
+			return nil, fmt.Errorf("jp/script.go: Script.appendValue: the *precBuf condition %q is not one precedence comparison", jpxText(sf.fset, is.Cond))
+		}
+		eb, ok := is.Else.(*ast.BlockStmt)
+		if !ok {
+			return nil, fmt.Errorf("jp/script.go: Script.appendValue: the *precBuf if has no else block")
+		}
+		def("`Script.appendValue`, `case *precBuf:` — the condition under which the operand is parenthesised", "appendValueParenCond", "Cmp", cm[0].lean())
+		def("… the statements when it holds", "appendValueParenThen", "List String", jpxStrList(sf.stmts(is.Body.List)))
+		def("… and when it does not", "appendValueParenElse", "List String", jpxStrList(sf.stmts(eb.List)))
+	}
+
+	// ---- Script.appendOp
+	{
+		fd, err := sf.fn("Script.appendOp")
+		if err != nil {
+			return nil, err
+		}
+		if len(fd.Body.List) != 3 {
+			return nil, fmt.Errorf("jp/script.go: Script.appendOp: body is not `pb = …; switch …; return`")
+		}
+		sw, ok := fd.Body.List[1].(*ast.SwitchStmt)
+		if !ok || sw.Tag == nil || sw.Init != nil {
+			return nil, fmt.Errorf("jp/script.go: Script.appendOp: second statement is not a switch with a tag")
+		}
+		cs, err := sf.clauses("Script.appendOp", sw, opVars)
+		if err != nil {
+			return nil, err
+		}
+		dc, err := jpxDefault("jp/script.go: Script.appendOp", cs)
+		if err != nil {
+			return nil, err
+		}
+		var rif *ast.IfStmt
+		for _, s := range dc.node.Body {
+			if is, ok := s.(*ast.IfStmt); ok {
+				if rif != nil {
+					return nil, fmt.Errorf("jp/script.go: Script.appendOp: two if statements in the default clause")
+				}
+				rif = is
+			}
+		}
+		if rif == nil || rif.Init == nil {
+			return nil, fmt.Errorf("jp/script.go: Script.appendOp: no `if rb, ok := …; …` in the default clause")
+		}
+		cm := jpxPrecCmps(sf.fset, rif.Cond)
+		if len(cm) != 1 {
+			return nil, fmt.Errorf("jp/script.go: Script.appendOp: the right-operand condition %q does not hold exactly one precedence comparison", jpxText(sf.fset, rif.Cond))
+		}
+		eb, ok := rif.Else.(*ast.BlockStmt)
+		if !ok {
+			return nil, fmt.Errorf("jp/script.go: Script.appendOp: the right-operand if has no else block")
+		}
+		def("`Script.appendOp`: first statement (the precedence of the produced buffer)", "appendOpInit", "String", jpxStr(jpxText(sf.fset, fd.Body.List[0])))
+		def("`Script.appendOp`: the switch tag", "appendOpSwitchTag", "String", jpxStr(jpxText(sf.fset, sw.Tag)))
+		def("`Script.appendOp`: the clauses in source order", "appendOpClauses", "List Clause", jpxClauseList(cs))
+		def("`Script.appendOp`: last statement", "appendOpLast", "String", jpxStr(jpxText(sf.fset, fd.Body.List[2])))
+		def("`Script.appendOp`, default clause: init of the if about the right operand", "appendOpRightInit", "String", jpxStr(jpxText(sf.fset, rif.Init)))
+		def("… its condition", "appendOpRightCond", "String", jpxStr(jpxText(sf.fset, rif.Cond)))
+		def("… the precedence comparison in it", "appendOpRightCmp", "Cmp", cm[0].lean())
+		def("… the statements when it holds (parentheses kept)", "appendOpRightThen", "List String", jpxStrList(sf.stmts(rif.Body.List)))
+		def("… and when it does not", "appendOpRightElse", "List String", jpxStrList(sf.stmts(eb.List)))
+	}
+
+	// ---- Script.Append, Script.String, Filter.String / Filter.Append
+	for _, it := range []struct {
+		jf         *jpxFile
+		fn, leanID string
+	}{{sf, "Script.Append", "scriptAppendBody"}, {sf, "Script.String", "scriptStringBody"}, {ff, "Filter.String", "filterStringBody"}, {ff, "Filter.Append", "filterAppendBody"}} {
+		fd, err := it.jf.fn(it.fn)
+		if err != nil {
+			return nil, err
+		}
+		def("`"+it.fn+"` ("+it.jf.rel+"): the statements", it.leanID, "List String", jpxStrList(it.jf.stmts(fd.Body.List)))
+	}
+
+	// ---- Equation.Append
+	{
+		fd, err := ef.fn("Equation.Append")
+		if err != nil {
+			return nil, err
+		}
+		if jpxParams(ef.fset, fd.Type.Params) != "buf []byte, parens bool" {
+			return nil, fmt.Errorf("jp/equation.go: Equation.Append: parameters are not (buf []byte, parens bool)")
+		}
+		var sws []*ast.SwitchStmt
+		ast.Inspect(fd.Body, func(n ast.Node) bool {
+			if sw, ok := n.(*ast.SwitchStmt); ok {
+				sws = append(sws, sw)
+			}
+			return true
+		})
+		if len(sws) != 2 {
+			return nil, fmt.Errorf("jp/equation.go: Equation.Append: %d switch statements, expected 2", len(sws))
+		}
+		for i, sw := range sws {
+			if sw.Tag == nil || jpxText(ef.fset, sw.Tag) != "e.o.code" {
+				return nil, fmt.Errorf("jp/equation.go: Equation.Append: switch %d is not over e.o.code", i+1)
+			}
+		}
+		np, err := ef.clauses("Equation.Append (parens off)", sws[0], opVars)
+		if err != nil {
+			return nil, err
+		}
+		cs, err := ef.clauses("Equation.Append", sws[1], opVars)
+		if err != nil {
+			return nil, err
+		}
+		dc, err := jpxDefault("jp/equation.go: Equation.Append", cs)
+		if err != nil {
+			return nil, err
+		}
+		var args []ast.Expr
+		for _, s := range dc.node.Body {
+			for _, ce := range jpxCallsTo(ef.fset, s, ".Append") {
+				if len(ce.Args) != 2 {
+					return nil, fmt.Errorf("jp/equation.go: Equation.Append: an Append call in the default clause without 2 arguments")
+				}
+				args = append(args, ce.Fun, ce.Args[1])
+			}
+		}
+		if len(args) != 4 || jpxText(ef.fset, args[0]) != "e.left.Append" || jpxText(ef.fset, args[2]) != "e.right.Append" {
+			return nil, fmt.Errorf("jp/equation.go: Equation.Append: the default clause is not e.left.Append(…) then e.right.Append(…)")
+		}
+		lc, rc := jpxPrecCmps(ef.fset, args[1]), jpxPrecCmps(ef.fset, args[3])
+		if len(lc) != 1 || len(rc) != 1 {
+			return nil, fmt.Errorf("jp/equation.go: Equation.Append: the parens argument of an operand does not hold exactly one precedence comparison")
+		}
+		def("`Equation.Append`: all statements of the body", "eqAppendBody", "List String", jpxStrList(ef.stmts(fd.Body.List)))
+		def("`Equation.Append`: the first switch (the forms for which `parens` is switched off)", "eqAppendNoParens", "List Clause", jpxClauseList(np))
+		def("`Equation.Append`: the clauses of the main switch", "eqAppendClauses", "List Clause", jpxClauseList(cs))
+		def("`Equation.Append`, infix default: the `parens` argument for the left operand", "eqAppendLeftParens", "String", jpxStr(jpxText(ef.fset, args[1])))
+		def("… the precedence comparison in it", "eqAppendLeftCmp", "Cmp", lc[0].lean())
+		def("`Equation.Append`, infix default: the `parens` argument for the right operand", "eqAppendRightParens", "String", jpxStr(jpxText(ef.fset, args[3])))
+		def("… the precedence comparison in it", "eqAppendRightCmp", "Cmp", rc[0].lean())
+	}
+
+	// ---- Equation.infix, Equation.String, MustParseEquation
+	{
+		fd, err := ef.fn("Equation.infix")
+		if err != nil {
+			return nil, err
+		}
+		sws := jpxSwitches(fd.Body.List)
+		if len(sws) != 1 || sws[0].Tag == nil || jpxText(ef.fset, sws[0].Tag) != "e.o.code" {
+			return nil, fmt.Errorf("jp/equation.go: Equation.infix: not exactly one switch over e.o.code")
+		}
+		cs, err := ef.clauses("Equation.infix", sws[0], opVars)
+		if err != nil {
+			return nil, err
+		}
+		def("`Equation.infix`: all statements", "eqInfixBody", "List String", jpxStrList(ef.stmts(fd.Body.List)))
+		def("`Equation.infix`: the clauses of its switch", "eqInfixClauses", "List Clause", jpxClauseList(cs))
+		for _, it := range []struct{ fn, leanID string }{{"Equation.String", "eqStringBody"}, {"MustParseEquation", "mustParseEquationBody"}} {
+			fd, err := ef.fn(it.fn)
+			if err != nil {
+				return nil, err
+			}
+			def("`"+it.fn+"`: the statements", it.leanID, "List String", jpxStrList(ef.stmts(fd.Body.List)))
+		}
+	}
+
+	// ---- precedentCorrect
+	{
+		fd, err := ef.fn("precedentCorrect")
+		if err != nil {
+			return nil, err
+		}
+		sws := jpxSwitches(fd.Body.List)
+		if len(sws) != 1 || sws[0].Tag == nil || jpxText(ef.fset, sws[0].Tag) != "e.o.code" {
+			return nil, fmt.Errorf("jp/equation.go: precedentCorrect: not exactly one switch over e.o.code")
+		}
+		cs, err := ef.clauses("precedentCorrect", sws[0], opVars)
+		if err != nil {
+			return nil, err
+		}
+		cm := jpxPrecCmps(ef.fset, fd.Body)
+		if len(cm) == 0 {
+			return nil, fmt.Errorf("jp/equation.go: precedentCorrect: no precedence comparison")
+		}
+		// the rotation: the if whose condition is exactly the first precedence comparison
+		var rot *ast.IfStmt
+		for _, s := range fd.Body.List {
+			if is, ok := s.(*ast.IfStmt); ok && is.Init == nil && jpxText(ef.fset, is.Cond) == cm[0].lhs+" "+cm[0].op+" "+cm[0].rhs {
+				rot = is
+				break
+			}
+		}
+		if rot == nil {
+			return nil, fmt.Errorf("jp/equation.go: precedentCorrect: no top-level if on the first precedence comparison")
+		}
+		def("`precedentCorrect`: all statements", "precCorrectBody", "List String", jpxStrList(ef.stmts(fd.Body.List)))
+		def("`precedentCorrect`: every if condition, in source order", "precCorrectConds", "List String", jpxStrList(jpxIfConds(ef.fset, fd.Body)))
+		def("`precedentCorrect`: every precedence comparison, in source order", "precCorrectCmps", "List Cmp", jpxCmpList(cm))
+		def("`precedentCorrect`: the clauses of the switch (call forms are corrected in place)", "precCorrectClauses", "List Clause", jpxClauseList(cs))
+		def("`precedentCorrect`: the rotation done when the first comparison holds", "precCorrectRotate", "List String", jpxStrList(ef.stmts(rot.Body.List)))
+	}
+
+	// ---- reduceGroups
+	{
+		fd, err := ef.fn("reduceGroups")
+		if err != nil {
+			return nil, err
+		}
+		cm := jpxPrecCmps(ef.fset, fd.Body)
+		if len(cm) != 1 {
+			return nil, fmt.Errorf("jp/equation.go: reduceGroups: %d precedence comparisons, expected 1", len(cm))
+		}
+		def("`reduceGroups`: all statements", "reduceGroupsBody", "List String", jpxStrList(ef.stmts(fd.Body.List)))
+		def("`reduceGroups`: every if condition, in source order", "reduceGroupsConds", "List String", jpxStrList(jpxIfConds(ef.fset, fd.Body)))
+		def("`reduceGroups`: the precedence comparison", "reduceGroupsCmp", "Cmp", cm[0].lean())
+	}
+
+	b.WriteString("end OjgVerif.Gen.JpParens\n")
+	ch, err := writeIfChanged(filepath.Join(out, "JpParens.lean"), b.String())
+	if err != nil {
+		return nil, err
+	}
+	if ch {
+		return []string{"JpParens"}, nil
 	}
 	return nil, nil
 }
